@@ -423,9 +423,9 @@ struct LookaroundParams {
 /// Represents an alternative path in a regex pattern.
 /// For example, in `/(?<a>x)|(?<a>y)/`, the two occurrences of 'a' are in different
 /// alternative paths (separated by |), so they don't conflict.
-/// Each element in the vector is (depth, alternative_index) where:
-/// - depth: parenthesis nesting level (0 = top level)
-/// - alternative_index: which alternative at that depth (0 = first, 1 = second after |, etc.)
+/// Each element in the vector is (group, alternative_index) where:
+/// - group: a serial number identifying the enclosing parenthesized group (0 = top level)
+/// - alternative_index: which alternative of that group (0 = first, 1 = second after |, etc.)
 #[derive(Debug, Clone, PartialEq, Eq)]
 struct AlternativePath {
     /// Vector of (depth, alternative_index) pairs representing the path through alternatives
@@ -439,8 +439,17 @@ impl AlternativePath {
     ///   - [(0, 0)] and [(0, 0), (1, 0)] conflict (second is nested within first)
     ///   - [(0, 0)] and [(0, 1)] don't conflict (different alternatives at depth 0)
     fn conflicts_with(&self, other: &AlternativePath) -> bool {
-        let min_len = self.segments.len().min(other.segments.len());
-        self.segments[..min_len] == other.segments[..min_len]
+        for (a, b) in self.segments.iter().zip(other.segments.iter()) {
+            if a.0 != b.0 {
+                // The paths diverge into different groups of the same alternative.
+                return true;
+            }
+            if a.1 != b.1 {
+                // Different alternatives of the same disjunction.
+                return false;
+            }
+        }
+        true
     }
 }
 
@@ -2051,6 +2060,10 @@ where
     ) -> Result<HashMap<String, Vec<AlternativePath>>, Error> {
         // Track parenthesis depth and alternative index at each depth
         let mut paren_depth: usize = 0;
+        // Serial number of the group open at each depth: two groups at the same depth are different
+        // disjunctions, and names in different disjunctions of one alternative do conflict.
+        let mut group_serials: Vec<usize> = vec![0];
+        let mut next_group_serial: usize = 1;
         // Map from depth to current alternative index at that depth
         let mut alt_indices: HashMap<usize, usize> = HashMap::new();
         alt_indices.insert(0, 0);
@@ -2114,7 +2127,7 @@ where
                         // Build current alternative path from depth 0 to current depth.
                         let mut segments = Vec::new();
                         for d in 0..=paren_depth {
-                            segments.push((d, *alt_indices.get(&d).unwrap_or(&0)));
+                            segments.push((group_serials[d], *alt_indices.get(&d).unwrap_or(&0)));
                         }
 
                         // Record this location.
@@ -2142,6 +2155,9 @@ where
                     // Entering a new group.
                     paren_depth += 1;
                     alt_indices.insert(paren_depth, 0);
+                    group_serials.truncate(paren_depth);
+                    group_serials.push(next_group_serial);
+                    next_group_serial += 1;
                 }
                 Some(')') => {
                     // Exiting a group
